@@ -378,6 +378,30 @@ func drive(t *testing.T, p *PropDef) {
 			if o2.LogHash != o.LogHash || o2.Violation != o.Violation {
 				res.DetMismatches++
 				fmt.Fprintf(os.Stderr, "DETERMINISM MISMATCH property=%s: %d/%q vs %d/%q\n", p.ID, o.LogHash, o.Violation, o2.LogHash, o2.Violation)
+				if os.Getenv("VERIF_DETDIFF") != "" {
+					for i := 0; i < len(o.Log) || i < len(o2.Log); i++ {
+						a, b := "<end>", "<end>"
+						if i < len(o.Log) {
+							a = o.Log[i]
+						}
+						if i < len(o2.Log) {
+							b = o2.Log[i]
+						}
+						if a != b {
+							lo := i - 12
+							if lo < 0 {
+								lo = 0
+							}
+							for j := lo; j < i; j++ {
+								fmt.Fprintln(os.Stderr, "   ", o.Log[j])
+							}
+							fmt.Fprintf(os.Stderr, "first difference at line %d:\n  A: %s\n  B: %s\n", i, a, b)
+							sb, _ := json.Marshal(sc)
+							fmt.Fprintf(os.Stderr, "scenario: %.1500s\n", sb)
+							break
+						}
+					}
+				}
 			}
 		}
 		return o
